@@ -12,7 +12,10 @@ Open Scope N_scope.
    calls es     := ids of the ECall events ;  calls_unique es := NoDup (calls es)
    sends l      := the (id, seq, fid) of the OSend outputs of l, in order
    in_flight st := the calls of st whose stage is PSending or PWaiting
-   q_before a b := a precedes-or-equals b in the queue order: higher priority first, then earlier arrival *)
+   q_before a b := a precedes-or-equals b in the queue order: higher priority first, then earlier arrival
+   reachable st := st = final es for some es with calls_unique es
+   spec_priority name := 999 for nop/readCounters/readAndClearCounters/getValue, -1 for sendUnicast/
+                   sendMulticast/sendBroadcast/setSourceRoute/setExtendedTimeout, 0 otherwise *)
 
 (* a call returns exactly the payload of a frame that carried the sequence number and frame id of
    its own request, received after that request was sent *)
@@ -23,7 +26,14 @@ Proof. exact own_response. Qed.
 
 (* one frame completes at most the call registered under its sequence number, and only when the
    frame id is the one that call sent: late, duplicate or foreign frames complete nobody else *)
-Theorem c06_no_cross : forall st s f inv vs id vs',
+(* CORRECTED: first stated for every st, which is false of a record that cannot arise: in
+     st = {| p_seq := 1; p_awaiting := [(0, (10, 1))]; p_holder := Some 1; p_queue := []; p_counter := 0;
+             p_calls := [{| k_id := 1; k_prio := 0; k_fid := 10; k_seq := 0; k_stage := PWaiting;
+                            k_reply := RValues [XNone] |}] |}
+   (a call still waiting although its reply is already recorded) the frames DOk 0 10 true [] and
+   DOk 0 10 false [] both produce [OReturn 1 [XNone]]: inv = true resp. vs' <> vs.  In a reachable
+   state a waiting call has no reply recorded (a reply completes it at once), hence [reachable st]. *)
+Theorem c06_no_cross : forall st s f inv vs id vs', reachable st ->
   In (OReturn id vs') (snd (proto_step st (EFrame (DOk s f inv vs)))) ->
   aw_get s (p_awaiting st) = Some (f, id) /\ inv = false /\ vs' = vs.
 Proof. exact no_cross. Qed.
@@ -41,7 +51,12 @@ Theorem c06_pending_not_callback : forall st s f inv vs x f' vs',
 Proof. exact pending_not_callback. Qed.
 
 (* the command timeout ends a call that is still waiting *)
-Theorem c06_timeout : forall st id c, call_get id (p_calls st) = Some c ->
+(* CORRECTED: first stated for every st, which is false when p_calls lists the same call id twice:
+   with c = {| k_id := 1; k_prio := 0; k_fid := 10; k_seq := 0; k_stage := PWaiting; k_reply := RNone |}
+   and st = {| p_seq := 1; p_awaiting := []; p_holder := Some 1; p_queue := []; p_counter := 0;
+               p_calls := [c; c] |},  call_get 1 (p_calls (fst (proto_step st (ETimeout 1)))) = Some c.
+   Reachable states list each call once, hence [reachable st]. *)
+Theorem c06_timeout : forall st id c, reachable st -> call_get id (p_calls st) = Some c ->
   k_stage c = PWaiting -> k_reply c = RNone ->
   In (ORaise id KTimeout) (snd (proto_step st (ETimeout id))) /\
   call_get id (p_calls (fst (proto_step st (ETimeout id)))) = None.
@@ -72,13 +87,14 @@ Theorem c06_no_slot_leak : forall es, calls_unique es ->
   p_holder (final es) = None -> p_queue (final es) = [] /\ in_flight (final es) = [].
 Proof. exact no_slot_leak. Qed.
 
-(* the priority classes named by the property, over every command name of every version *)
-Definition spec_priority (name : string) : Z :=
-  if existsb (String.eqb name) ["nop"; "readCounters"; "readAndClearCounters"; "getValue"]%string then 999%Z
-  else if existsb (String.eqb name)
-       ["sendUnicast"; "sendMulticast"; "sendBroadcast"; "setSourceRoute"; "setExtendedTimeout"]%string then (-1)%Z
-  else 0%Z.
+(* ADDED (the other half of "no exit path leaks the slot"): a slot that is held is held by a call
+   that is sending or waiting, never by a call that has ended *)
+Theorem c06_slot_held_by_in_flight : forall es h, calls_unique es ->
+  p_holder (final es) = Some h -> exists c, In c (in_flight (final es)) /\ k_id c = h.
+Proof. exact holder_in_flight. Qed.
 
+(* the priority classes named by the property, over every command name of every version
+   ([spec_priority] is defined in the proofs file) *)
 Theorem c06_priority_classes : forall name p, In (name, p) PRIORITIES -> p = spec_priority name.
 Proof. exact priority_classes. Qed.
 
